@@ -99,21 +99,24 @@ InvValue == ForRuns(LAMBDA e, r : OkRun(e, r) => ValOk(e, r, pcat))
 
 (* C01 (also C02 under the twin profile, C11 under the rich-value profile) *)
 InvC01 == ForRuns(LAMBDA e, r :
-             (e.op \in {"FindAll", "ForEach", "FindById", "Derived"} /\ NoPanic(r)) =>
+             (e.op \in {"FindAll", "ForEach", "FindById", "Derived"}) =>
+                /\ NoPanic(r)            \* a call that does not return normally returns no documents
                 /\ OutcomeOk(e, r, pcat, pfiles)
                 /\ OkRun(e, r) => ValOk(e, r, pcat))
 
 (* C08: only sorted / windowed queries                                     *)
 InvC08 == ForRuns(LAMBDA e, r :
-             (e.op \in {"FindAll", "ForEach", "Derived"} /\ NoPanic(r)
+             (e.op \in {"FindAll", "ForEach", "Derived"}
                 /\ HasColl(pcat, e.c)
                 /\ (QueryOf(e).sort # <<>> \/ Windowed(QueryOf(e)))) =>
+                /\ NoPanic(r)
                 /\ OutcomeOk(e, r, pcat, pfiles)
                 /\ OkRun(e, r) => ValOk(e, r, pcat))
 
 (* C09                                                                     *)
 InvC09 == ForRuns(LAMBDA e, r :
-             (e.op \in QueryReadOps /\ NoPanic(r)) =>
+             (e.op \in QueryReadOps) =>
+                /\ NoPanic(r)
                 /\ OutcomeOk(e, r, pcat, pfiles)
                 /\ OkRun(e, r) => ValOk(e, r, pcat)
                 /\ PureOk(r))
@@ -123,14 +126,16 @@ InvReadsPure == ForRuns(LAMBDA e, r :
 
 (* C03                                                                     *)
 InvC03 == ForRuns(LAMBDA e, r :
-             (e.op \in BulkOps \cup {"DropCollection"} /\ NoPanic(r)) =>
+             (e.op \in BulkOps \cup {"DropCollection"}) =>
+                /\ NoPanic(r)
                 /\ OutcomeOk(e, r, pcat, pfiles)
                 /\ CallsOk(e, r, pcat)
                 /\ HasField(r, "audit") => DocsAuditOk(r.audit, cat) /\ CatalogAuditOk(r.audit, cat))
 
 (* C02: bulk operations select the same documents whatever the indexes     *)
 InvC02 == ForRuns(LAMBDA e, r :
-             (e.op \in BulkOps \cup {"FindAll", "Count", "Derived"} /\ NoPanic(r)) =>
+             (e.op \in BulkOps \cup {"FindAll", "Count", "Derived"}) =>
+                /\ NoPanic(r)
                 /\ OutcomeOk(e, r, pcat, pfiles)
                 /\ OkRun(e, r) => ValOk(e, r, pcat)
                 /\ HasField(r, "audit") => DocsAuditOk(r.audit, cat))
@@ -185,7 +190,8 @@ InvReopen == (HaveLast /\ Last.op = "Reopen") =>
 (* C12                                                                     *)
 C12Ops == {"Insert", "InsertOne", "Save", "ReplaceById", "UpdateById", "Update", "UpdateFunc", "FindById"}
 InvC12 == ForRuns(LAMBDA e, r :
-             (e.op \in C12Ops /\ NoPanic(r)) =>
+             (e.op \in C12Ops) =>
+                /\ NoPanic(r)
                 /\ OutcomeOk(e, r, pcat, pfiles)
                 /\ OkRun(e, r) => ValOk(e, r, pcat)
                 /\ HasField(r, "audit") => DocsAuditOk(r.audit, cat) /\ KeyIsIdAuditOk(r.audit))
@@ -193,7 +199,7 @@ InvC12 == ForRuns(LAMBDA e, r :
 (* C13                                                                     *)
 C13Ops == {"CreateCollection", "DropCollection", "HasCollection", "ListCollections"}
 InvC13 == ForRuns(LAMBDA e, r :
-             NoPanic(r) =>
+                /\ (e.op \in C13Ops \/ (HasField(e, "c") /\ ~HasColl(pcat, e.c))) => NoPanic(r)
                 /\ (e.op \in C13Ops \/ (HasField(e, "c") /\ ~HasColl(pcat, e.c))) => OutcomeOk(e, r, pcat, pfiles)
                 /\ (e.op \in C13Ops /\ OkRun(e, r)) => ValOk(e, r, pcat)
                 /\ HasField(r, "audit") =>
@@ -203,8 +209,7 @@ InvC13 == ForRuns(LAMBDA e, r :
 (* C14                                                                     *)
 C14Ops == {"CreateIndex", "DropIndex", "HasIndex", "ListIndexes"}
 InvC14 == ForRuns(LAMBDA e, r :
-             NoPanic(r) =>
-                /\ e.op \in C14Ops => OutcomeOk(e, r, pcat, pfiles)
+                /\ e.op \in C14Ops => NoPanic(r) /\ OutcomeOk(e, r, pcat, pfiles)
                 /\ (e.op \in C14Ops /\ OkRun(e, r)) => ValOk(e, r, pcat)
                 \* results obtained through the surviving indexes
                 /\ (e.op \in {"FindAll", "Derived"} /\ OkRun(e, r)) => ValOk(e, r, pcat)
@@ -222,7 +227,8 @@ InvBackendsAgree ==
 (* C19                                                                     *)
 C19Ops == {"Export", "Import"}
 InvC19 == ForRuns(LAMBDA e, r :
-             (e.op \in C19Ops /\ NoPanic(r)) =>
+             (e.op \in C19Ops) =>
+                /\ NoPanic(r)
                 /\ OutcomeOk(e, r, pcat, pfiles)
                 /\ HasField(r, "audit") => AuditOk(r.audit, cat))
 \* the exported file holds exactly the JSON typing of the collection
